@@ -11,7 +11,7 @@ Not decided: the run-time behaviour on concrete alignment files.
 import ast
 
 from sa.cfg import cfg_of
-from sa.fold import Evaluator, Raised, Unfoldable, module_consts, single_defs
+from sa.fold import Evaluator, Obj, Raised, Unfoldable, module_consts, single_defs
 from sa.guards import (decide_with, exiting_guards, find_calls, fmt_tests, grid, guard_table,
                        names_assigned_from)
 from sa.loader import call_name, calls_in, kwarg, walk_local
@@ -96,6 +96,30 @@ def r1(repo, res):
                        "structure is estimated or supplied",
                 key=f"{suf}|kind={kind}",
             )
+
+
+def r1_atom(repo, res):
+    """The depth atom of R1: average over *all* covered positions of the locus (gene and pseudogene)."""
+    f = repo.func("coverage::Coverage.average_coverage")
+    res.analysed(f)
+    tot = {10: 30.0, 11: 10.0, 500: 20.0, 501: 0.0}
+    vals = []
+    try:
+        for gene_positions in ([10, 11, 500, 501], [10, 11], []):
+            me = Obj(_coverage={p: {"_": []} for p in tot}, total=lambda p, t=tot: t[p], gene=list(gene_positions),
+                     profile=Obj(cn_region=None))
+            k, v = Evaluator({"self": me}).run([s_ for s_ in f.body
+                                               if not (isinstance(s_, ast.Expr) and isinstance(s_.value, ast.Constant))])
+            vals.append(v if k == "return" else k)
+    except (Unfoldable, Raised) as e:
+        res.err("C19.R1", f"Coverage.average_coverage outside folding language: {e}")
+        return
+    ok = all(isinstance(v, (int, float)) for v in vals) and vals[0] == vals[1] == vals[2] and 60.0 / 5 <= vals[0] <= 60.0 / 4
+    res.ob("C19.R1", f, f, ok,
+           expected="mean depth over every covered position of the locus, independent of which positions belong to the main gene",
+           found=f"all positions in gene: {vals[0]}, half: {vals[1]}, none (pseudogene only): {vals[2]}",
+           clause="average depth over the covered locus (the gene and its pseudogene regions); pseudogene-only samples are still called",
+           key="average-depth-definition")
 
 
 def _fmt(p):
@@ -213,6 +237,21 @@ def r3(repo, res):
     res.ob("C19.R3", f, d, ok, expected="total depth sums gene and pseudogene depth of every unique region",
            found=found, clause="a sample whose reads cover only the pseudogene is still called (whole-gene deletion)",
            key="total-counts-both")
+    # the other atom of the guard: the smallest configuration = min over configurations of its summed copy vector
+    dm = [n for n in walk_local(f) if isinstance(n, ast.Assign) and isinstance(n.targets[0], ast.Name)
+          and n.targets[0].id == mn[0]][0]
+    cfgs = {"1": Obj(cn=[{"a": 1, "b": 1}, {"a": 1, "b": 1}]), "5": Obj(cn=[{"a": 0, "b": 0}, {"a": 1, "b": 1}]),
+            "36": Obj(cn=[{"a": 1, "b": 0}, {"a": 1, "b": 2}])}
+    try:
+        v = Evaluator({"gene": Obj(cn_configs=cfgs)}).ev(dm.value)
+    except (Unfoldable, Raised) as e:
+        res.err("C19.R3", f"cannot fold the smallest-configuration definition: {e}")
+        return
+    res.ob("C19.R3", f, dm, v == 2,
+           expected="smallest configuration = min over configurations of the sum of its whole copy vector (2 on the sample table)",
+           found=f"{ast.unparse(dm.value)[:90]} -> {v}",
+           clause="no star-allele call from a locus without reads (the guard's threshold must be positive for a gene with a deletion allele)",
+           key="smallest-configuration")
 
 
 def r4(repo, res):
@@ -255,6 +294,7 @@ def r4(repo, res):
 
 def run(repo, res):
     r1(repo, res)
+    r1_atom(repo, res)
     r2(repo, res)
     r3(repo, res)
     r4(repo, res)
@@ -310,6 +350,12 @@ MUTANTS = [
                 f"Average coverage of""",
          new="""            raise AldyException(
                 f"Average coverage of""", expect="C19.R4"),
+    dict(name="R1 average restricted to main-gene positions", module="coverage", expect="C19.R1",
+         old="        return sum(self.total(pos) for pos in self._coverage) / float(",
+         new="        return sum(self.total(pos) for pos in self._coverage if pos in self.gene) / float("),
+    dict(name="R3 smallest configuration taken per gene part", module="cn", expect="C19.R3",
+         old="            sum(sum(v.values()) for v in gene.cn_configs[c].cn) for c in gene.cn_configs\n",
+         new="            sum(v.values()) for c in gene.cn_configs for v in gene.cn_configs[c].cn\n"),
     # benign
     dict(name="benign: flipped comparison", module="genotype", kind="benign",
          old="        if avg_cov < profile.min_avg_coverage:", new="        if profile.min_avg_coverage > avg_cov:"),
